@@ -66,7 +66,8 @@ Judge(e) ==
          \cup (IF e.writer_missing > 0 THEN {"conc.writer.registered-format-missing"} ELSE {})
     [] e.op = "FRESH" ->
          \* the first use of the writer package in a process is a registration of a built-in format: it must stick
-         IF e.got = e.want THEN {} ELSE {"conc.writer.first-registration-lost"}
+         IF e.got = e.want THEN {}
+         ELSE IF e.want = "err" THEN {"conc.writer.first-removal-lost"} ELSE {"conc.writer.first-registration-lost"}
     [] e.op = "RO" -> {}
     [] OTHER -> {"unknown-op." \o e.op}
 
